@@ -303,3 +303,18 @@ def all_pstr(n):
 
 def otxt(s):
     return s if s else "-"
+
+
+def run_check(pid, main):
+    """entry point wrapper: an internal failure of a check is reported, never a silent pass"""
+    import traceback
+    try:
+        main()
+    except SystemExit:
+        raise
+    except BaseException as e:  # noqa
+        tb = traceback.format_exc()
+        ck = Check(pid)
+        ck.cov["evaluations"] = 0
+        ck.obligation_broken("check machinery failed: %s: %s" % (type(e).__name__, e), tb[-3000:])
+        ck.finish()
